@@ -27,8 +27,11 @@ PROBES = ["eyecite", "Foo, 1 U.S. at 5 because", "Foo\tv. Bar, 1 U.S. 1", "Unite
 
 
 def plan(tier, seed):
-    return [dict(i=i, n=N[tier], seed=seed * 1000 + i, corpus=(i == 0), probes=(i == 0))
+    specs = [dict(i=i, n=N[tier], seed=seed * 1000 + i, corpus=(i == 0), probes=(i == 0))
             for i in range(SHARDS[tier])]
+    if tier == "thorough":
+        specs.append(dict(i=99, suite=True, n=0, seed=seed))
+    return specs
 
 
 def prepare(tier, seed, workdir):
@@ -73,6 +76,8 @@ def on_result_factory(rec):
 
 
 def run_shard(spec, rec):
+    if spec.get("suite"):
+        return _extract.suite_under_contracts(rec, "C02.")
     instrument.install(rec, what=())  # boundary monitor decides; contracts used by C12/C03
     on_result = on_result_factory(rec)
     if spec.get("probes"):
